@@ -175,6 +175,10 @@ pub use scanner_mode::ScannerMode;
 mod span;
 pub use span::Span;
 
+/// Verification hooks; only compiled with `--cfg scnr_verif` (off by default).
+#[cfg(all(scnr_verif, not(feature = "regex_automata")))]
+pub mod verif;
+
 /// Module that provides a WithPositions type
 mod with_positions;
 pub use with_positions::{MatchExtIterator, WithPositions};
